@@ -102,6 +102,9 @@ fn main() {
         if let Some(sw) = scripts.as_mut() {
             sw.write(&json!({"run": run, "cfg": cfg.to_json(), "steps": script}));
         }
+        // closing the database of a run in which redb panicked earlier may panic again (poisoned locks): that earlier panic
+        // is in the trace already; the driver goes on with the next run
+        let _ = std::panic::catch_unwind(std::panic::AssertUnwindSafe(move || drop(ex)));
     }
     stats["runs"] = json!(runs);
     stats["kinds"] = json!(kinds);
